@@ -222,7 +222,12 @@ nni_msgq_aio_put(nni_msgq *mq, nni_aio *aio)
 
 	// If this is an instantaneous poll operation, and the queue has
 	// no room, nobody is waiting to receive, then report NNG_ETIMEDOUT.
-	if (!nni_aio_start(aio, nni_msgq_cancel, mq)) {
+	// (Only start the aio -- which applies the timeout -- when we will
+	// actually have to wait.)
+	if ((((mq->mq_len >= mq->mq_cap) &&
+	         nni_list_empty(&mq->mq_aio_getq)) ||
+	        !nni_list_empty(&mq->mq_aio_putq)) &&
+	    (!nni_aio_start(aio, nni_msgq_cancel, mq))) {
 		nni_mtx_unlock(&mq->mq_lock);
 		return;
 	}
@@ -237,7 +242,12 @@ void
 nni_msgq_aio_get(nni_msgq *mq, nni_aio *aio)
 {
 	nni_mtx_lock(&mq->mq_lock);
-	if (!nni_aio_start(aio, nni_msgq_cancel, mq)) {
+	// Only start the aio (which applies the timeout) when nothing can be
+	// handed over right away; a zero-timeout poll must still get data
+	// that is already there.
+	if ((((mq->mq_len == 0) && nni_list_empty(&mq->mq_aio_putq)) ||
+	        !nni_list_empty(&mq->mq_aio_getq)) &&
+	    (!nni_aio_start(aio, nni_msgq_cancel, mq))) {
 		nni_mtx_unlock(&mq->mq_lock);
 		return;
 	}
